@@ -1,4 +1,7 @@
-import XlModel.Lemmas.Save
+import XlModel.Lemmas.Save3
+import XlModel.Lemmas.SaveCols
+import XlModel.Lemmas.Grid4
+import XlModel.Generated.FactsC01
 /-!
 # C02 — saving is observationally pure and repeatable
 
@@ -181,30 +184,170 @@ theorem save_twice_same (w : WS) (s : Sheet) (hc : w.cache = some s) (hw : Wf s)
       _, _, rfl, ?_, rfl, rfl, d1, d2, e1, e2, a1, by rw [a2, ha]⟩
     simp only [Bool.false_eq_true, if_false, e']
 
-/-- an operation that depends only on the observable content of well-formed worksheets -/
-def Respects (op : Sheet → Res Sheet) : Prop :=
-  ∀ s s', Wf s → Wf s' → abs s = abs s' →
-    match op s, op s' with
-    | .ok t, .ok t' => Wf t ∧ Wf t' ∧ abs t = abs t'
-    | .err, .err => True
-    | _, _ => False
+/-! ## whole histories: the main clause as one theorem -/
 
-/-- (clause "any subsequent mutation produces the same observable state as if no save had
-happened") **partial**: reduced to `Respects op` — the later operation is a function of the
-observable content on well-formed worksheets — which is the last-writer-wins refinement of
-the setters (property C03) and is *not* proved here; the correspondence check and the twin
-oracle validate it for the setters in the transcript. -/
-theorem save_pure_partial (op : Sheet → Res Sheet) (hop : Respects op) (s : Sheet) (h : Wf s) :
-    ∃ s', checkRow (trimRow s) = (s', Res.ok ()) ∧
-      match op s', op s with
-      | .ok t', .ok t => abs t' = abs t
-      | .err, .err => True
-      | _, _ => False := by
-  obtain ⟨s', e, hw, ha⟩ := trim_densify_obs s h
-  refine ⟨s', e, ?_⟩
-  have := hop s' s hw h ha
-  revert this
-  cases op s' <;> cases op s <;> simp
+/-- every call of the history passes the one bound the library does not check itself
+(`SetRowVisible` accepts rows beyond `TotalRows`, see `finding_hide_beyond_last_row`) -/
+def HistOk (ops : List Op) : Prop := ∀ op ∈ ops, OpOk op
+
+/-- (refinement over histories) From related states, any history — setters, getters,
+NewSheet, CopySheet, saves and reopens at arbitrary positions — gives, call by call, the
+answers of the specification (a list of total maps on which save and reopen do nothing),
+and ends in related states. Induction over the history; the save step is `save_inv`
+(trim in place / evict / re-densify, `trim_densify_obs`), the setter steps are
+`setCell_wf` / `setRowHidden_wf` (slot arithmetic = function update on well-formed sheets). -/
+theorem history_refines_spec : ∀ (ops : List Op) (wb : WB) (b : Spec.Book), Sim wb b → HistOk ops →
+    (run wb ops).2 = (Spec.run b ops).2 ∧ Sim (run wb ops).1 (Spec.run b ops).1 := by
+  intro ops
+  induction ops with
+  | nil => intro wb b h _; exact ⟨rfl, h⟩
+  | cons o os ih =>
+    intro wb b h hok
+    obtain ⟨e1, h1⟩ := step_sim wb b o h (hok o List.mem_cons_self)
+    obtain ⟨e2, h2⟩ := ih (step wb o).1 (Spec.step b o).1 h1 (fun x hx => hok x (List.mem_cons_of_mem _ hx))
+    simp only [run, Spec.run]
+    exact ⟨by rw [e1, e2], h2⟩
+
+/-- a call that serialises: Write/WriteTo/WriteToBuffer/SaveAs (`save`) or save-and-open-again (`reopen`) -/
+def isSave : Op → Bool
+  | .save => true
+  | .reopen => true
+  | _ => false
+
+/-- the answers at the positions that are not saves -/
+def visible : List Op → List Out → List Out
+  | o :: os, x :: xs => if isSave o then visible os xs else x :: visible os xs
+  | _, _ => []
+
+/-- the specification ignores saves: same final grids, same answers elsewhere -/
+theorem spec_ignores_saves : ∀ (ops : List Op) (b : Spec.Book),
+    (Spec.run b ops).1 = (Spec.run b (ops.filter (fun o => !isSave o))).1 ∧
+    visible ops (Spec.run b ops).2 = (Spec.run b (ops.filter (fun o => !isSave o))).2 := by
+  intro ops
+  induction ops with
+  | nil => intro b; exact ⟨rfl, rfl⟩
+  | cons o os ih =>
+    intro b
+    cases o <;> simp [Spec.run, Spec.step, isSave, visible, List.filter, ih]
+
+theorem histOk_filter (ops : List Op) (p : Op → Bool) (h : HistOk ops) : HistOk (ops.filter p) :=
+  fun op hop => h op (List.mem_filter.mp hop).1
+
+/-- **save_pure** (the property's main clause, full strength, over whole histories).
+Take any reachable-style state (`Sim wb b`: every part loads to a well-formed worksheet) and
+any two histories that differ only in where — and how often — save / reopen calls are
+interleaved. Then every other call answers the same in both runs (every getter returns
+what it returns without the saves; every mutation is accepted or rejected alike), and the
+final states have the same observation: there is one list of grids `b'` that both final
+workbooks stand for, part by part. -/
+theorem save_pure (wb : WB) (b : Spec.Book) (ops ops' : List Op) (h : Sim wb b)
+    (hok : HistOk ops) (hok' : HistOk ops')
+    (hsame : ops.filter (fun o => !isSave o) = ops'.filter (fun o => !isSave o)) :
+    visible ops (run wb ops).2 = visible ops' (run wb ops').2 ∧
+    ∃ b', Sim (run wb ops).1 b' ∧ Sim (run wb ops').1 b' := by
+  obtain ⟨e1, s1⟩ := history_refines_spec ops wb b h hok
+  obtain ⟨e2, s2⟩ := history_refines_spec ops' wb b h hok'
+  obtain ⟨f1, v1⟩ := spec_ignores_saves ops b
+  obtain ⟨f2, v2⟩ := spec_ignores_saves ops' b
+  refine ⟨by rw [e1, e2, v1, v2, hsame], (Spec.run b ops).1, s1, ?_⟩
+  rw [f1, hsame, ← f2]; exact s2
+
+/-- (… "and the same saved content") two workbooks that stand for the same grids are both
+saved successfully, and every stored worksheet part of either decodes — checkSheet, checkRow —
+to a well-formed worksheet with the observation of the corresponding grid: the packages
+decode to identical content. With `save_pure`: the content saved after a history does not
+depend on the saves interleaved before. -/
+theorem saved_content_same (wb wb' : WB) (b : Spec.Book) (h : Sim wb b) (h' : Sim wb' b) :
+    ∃ ws ws', save wb = Res.ok ⟨ws⟩ ∧ save wb' = Res.ok ⟨ws'⟩ ∧
+      All2 SavedOk ws b ∧ All2 SavedOk ws' b ∧ Sim ⟨ws⟩ b ∧ Sim ⟨ws'⟩ b := by
+  obtain ⟨ws, e, p, q⟩ := saveAll_sim h
+  obtain ⟨ws', e', p', q'⟩ := saveAll_sim h'
+  exact ⟨ws, ws', by simp [save, e], by simp [save, e'], q, q', p, p'⟩
+
+/-- (… "saving an unmodified workbook twice", whole workbook) two consecutive saves both
+succeed and the parts stored by the first and by the second decode to the same grids. -/
+theorem save_twice_same_workbook (wb : WB) (b : Spec.Book) (h : Sim wb b) :
+    ∃ ws1 ws2, save wb = Res.ok ⟨ws1⟩ ∧ save ⟨ws1⟩ = Res.ok ⟨ws2⟩ ∧
+      All2 SavedOk ws1 b ∧ All2 SavedOk ws2 b := by
+  obtain ⟨ws1, e1, p1, q1⟩ := saveAll_sim h
+  obtain ⟨ws2, e2, _, q2⟩ := saveAll_sim (ws := ws1) p1
+  exact ⟨ws1, ws2, by simp [save, e1], by simp [save, e2], q1, q2⟩
+
+/-- the histories of the quantifier start here: NewFile is related to the one-sheet book -/
+theorem sim_newFile : Sim newFile Spec.newFile :=
+  All2.cons (Or.inl ⟨⟨[]⟩, rfl, wf_empty, abs_empty⟩) All2.nil
+
+/-! ## the other in-place normalisations of `workSheetWriter`: `<cols>` and merged ranges
+
+These two steps are modelled by C01 (`XlModel.SaveCols`) and C03 (`XlModel.Grid`), each tied to the
+code by its own facts and transcript; here they are stated as clauses of *save purity*. -/
+
+/-- `mergeExpandedCols` still compares all ten `xlsxCol` fields of a column definition with its
+predecessor shifted by one column (regenerated by C01's extractor): dropping `Style` (or any other
+field) from the comparison — the seeded change C02a/1 — breaks this obligation. -/
+theorem facts_cols_compare_all_fields :
+    Facts.C01.mergeColsFields = ["BestFit", "Collapsed", "CustomWidth", "Hidden", "Max", "Min",
+      "OutlineLevel", "Phonetic", "Style", "Width"] ∧ Facts.C01.mergeColsMaxFromLastMin = true := by decide
+
+/-- (save is pure on column definitions) what `workSheetWriter` → `mergeExpandedCols` leaves in the
+cached worksheet resolves every column — any of the 16384 — to the same width, style, visibility,
+outline level and remaining attributes as before the save, for every flat `<cols>` list (one entry per
+column, the form every column setter leaves), of any length. -/
+theorem save_cols_pure (lo : Nat) (l : List SaveCols.Col) (h : SaveCols.FlatFrom lo l) (c : Nat) :
+    SaveCols.look (SaveCols.mergeCols l) c = SaveCols.look l c := by
+  unfold SaveCols.mergeCols
+  rw [SaveCols.sortCols_flat lo l h]
+  exact SaveCols.look_mergeSorted lo l h c
+
+/-- (save is pure on merged ranges that do not overlap) `workSheetWriter` → `mergeOverlapCells`
+(flatMergedCells with its pointer matrix and in-place rect mutation, then the selection pass) is the
+identity on every list of valid, pairwise disjoint merged ranges: same entries, same order, same `Ref`. -/
+theorem save_merges_pure_on_disjoint (ms : List Grid.MObj) (h : Grid.PairwiseDisjoint ms) :
+    Grid.mergeOverlapCells ms = ms := Grid.mergeOverlap_id ms h
+
+/-- (finding, open: `twin:overlapping-merges-normalised-at-save`) on two intersecting ranges
+(`D3:D4` then `C2:D3`, the witness of the oracle) the save is *not* the identity: it replaces them by
+the one range `C2:D4`, so `mergeCellsParser` redirects a later write into the overlap to another cell. -/
+theorem finding_overlapping_merges_normalised :
+    let ms : List Grid.MObj := [⟨⟨4, 3, 4, 4⟩, ⟨4, 3, 4, 4⟩⟩, ⟨⟨3, 2, 4, 3⟩, ⟨3, 2, 4, 3⟩⟩]
+    Grid.mergeOverlapCells ms ≠ ms ∧ (Grid.mergeOverlapCells ms).map (·.ref) = [⟨3, 2, 4, 4⟩] := by
+  decide
+
+/-! ## an open finding that the history theorem's hypothesis `HistOk` stands for -/
+
+/-- (finding, open) `SetRowVisible` accepts a row beyond `TotalRows` (it only rejects
+`row < 1`); the worksheet then has more row slots than `checkSheet` admits, so the part a
+save writes for it can no longer be loaded: on a worksheet that the save evicts (e.g.
+Sheet1 of NewFile) every later call on the sheet fails with ErrMaxRows, while without the
+save it keeps working. This is why `save_pure` assumes `HistOk`. -/
+theorem finding_hide_beyond_last_row (r : Nat) (hr : Facts.TotalRows < r) :
+    ∃ s', setRowHidden ⟨[]⟩ r true = Res.ok s' ∧
+      decodePart false (some (trimRow s').rows) = Res.err := by
+  have hr0 : r ≠ 0 := by omega
+  have hlt : ¬ (r < 1) := by omega
+  have hres : setRowHidden ⟨[]⟩ r true = Res.ok
+      ⟨((appendRows [] r).modify (r - 1) (fun x => { x with cells := fillColumns x.cells 0 r })).modify (r - 1)
+        (fun x => { x with hidden := true })⟩ := by
+    unfold setRowHidden prepareSheetXML
+    simp [hlt, hr0]
+  refine ⟨_, hres, ?_⟩
+  have h0 : (appendRows [] r)[r - 1]? = some ⟨r, false, []⟩ := by
+    unfold appendRows
+    have hpos : ([] : List Row).length < r := by simp; omega
+    rw [if_pos hpos]
+    simp only [List.nil_append, List.length_nil, Nat.sub_zero]
+    rw [List.getElem?_map, List.getElem?_range' (by omega)]
+    simp; omega
+  have hany : (trimRow ⟨((appendRows [] r).modify (r - 1) (fun x => { x with cells := fillColumns x.cells 0 r })).modify (r - 1)
+        (fun x => { x with hidden := true })⟩).rows.any (fun x => decide (x.r > Facts.TotalRows)) = true := by
+    rw [List.any_eq_true]
+    refine ⟨trimRow1 ⟨r, true, fillColumns [] 0 r⟩, ?_, by rw [trimRow1_r]; simpa using hr⟩
+    apply List.mem_of_getElem? (i := r - 1)
+    simp only [trimRow, List.getElem?_map, List.getElem?_modify, h0, if_true]
+    rfl
+  unfold decodePart
+  simp only [Option.getD_some, Bool.false_eq_true, if_false]
+  rw [checkSheet_err _ hany]
 
 /-! ## the defect that was repaired, as a theorem about the pre-fix save path -/
 
